@@ -267,7 +267,7 @@ static size_t run_line(size_t pc, int in_child, int *stop) {
     } else if (!strcmp(c, "sinkdevlog")) { unsigned char *p = unhex(tok[2], &n); add_sink(tok[1], S_SOCK, (char *) p, bind_dgram((char *) p)); setenv("REC_DEVLOG", (char *) p, 1); free(p);
     } else if (!strcmp(c, "sinkstd")) {
         int po[2], pe[2]; if (pipe2(po, O_NONBLOCK) || pipe2(pe, O_NONBLOCK)) {}
-        fcntl(po[0], F_SETPIPE_SZ, 4 << 20); fcntl(pe[0], F_SETPIPE_SZ, 4 << 20);
+        if (fcntl(po[0], F_SETPIPE_SZ, 1 << 20) < 0 || fcntl(pe[0], F_SETPIPE_SZ, 1 << 20) < 0) opf("{\"ev\":\"error\",\"what\":\"F_SETPIPE_SZ: %s\"}\n", strerror(errno));
         dup2(po[1], 1); dup2(pe[1], 2); close(po[1]); close(pe[1]);
         int f1 = fcntl(1, F_GETFL); fcntl(1, F_SETFL, f1 & ~O_NONBLOCK);   /* writers block-free? the write ends stay non-blocking via shared file description */
         add_sink("stdout", S_PIPE, NULL, po[0]); add_sink("stderr", S_PIPE, NULL, pe[0]);
